@@ -205,8 +205,18 @@ def check_sutton(ctx, rule):
     paths = it.run_function(SQ)
     rets = [p for p in paths if p.outcome == "return"]
     raises = [p for p in paths if p.outcome == "raise"]
-    okr = any(p.exc == "ValueError" and not any(e.kind in ("ext_call", "opaque_call") for e in p.events) for p in raises)
-    ctx.check(okr, "C19-d", SQ + ":unknown fluid", f.where(), "a fluid type other than 'dry gas' / 'wet gas' raises ValueError before any arithmetic", signature="no ValueError", raising=[p.exc for p in raises])
+    import re as _re
+
+    guard = _re.compile(r"^fluid in (tuple|set|list)\(('dry gas', 'wet gas'|'wet gas', 'dry gas')\)$")
+    okr = any(
+        p.exc == "ValueError" and not any(e.kind in ("ext_call", "opaque_call") for e in p.events) and p.decisions and not p.decisions[-1][1] and guard.match(p.decisions[-1][2])
+        for p in raises
+    )
+    ctx.check(
+        okr, "C19-d", SQ + ":unknown fluid", f.where(),
+        "ValueError is raised, before any arithmetic, exactly when the fluid type is not a member of the two-element collection {'dry gas', 'wet gas'}",
+        signature="fluid guard", raising=[(p.exc, p.decisions[-1][2] if p.decisions else "") for p in raises],
+    )
     frac = nf.fn("[]", nf.sym("non_hydrocarbon_properties"), nf.sym("'fraction'"))
 
     def zero(a):
